@@ -417,6 +417,9 @@ func (configgen *ConfigGeneratorImpl) buildClusters(proxy *model.Proxy, req *mod
 	for _, c := range clusters {
 		resources = append(resources, &discovery.Resource{Name: c.Name, Resource: protoconv.MessageToAny(c)})
 	}
+	// The clusters of the services can collide as well: with each other (subsets of a DestinationRule with
+	// the same or an empty name) and with clusters added by Envoy filters.
+	resources = cb.normalizeResources(resources)
 
 	if cacheStats.empty() {
 		return resources, model.DefaultXdsLogDetails
